@@ -12,8 +12,9 @@ What is modelled:
   mode: `\n` becomes `os.linesep`, then UTF-8 encoding (the locale encoding of
   `emit_c_code`'s `open` is assumed to be UTF-8);
 * `sys.stdout.write`: CPython creates `sys.stdout` with `newline="\n"`, so no
-  newline translation, then the (UTF-8) encoding; the generator's own
-  `print("generating ...")` line goes to the same stream first (`deliver`).
+  newline translation, then the (UTF-8) encoding (`emit_c_code` on a file-like
+  target prints nothing; on a path it prints `generating <path>` to stdout,
+  which is not part of the file).
 
 What is a parameter (the same function on both sides): the generator
 `gen name cdef prelude` = the text `FFI().cdef(cdef); set_source(name, prelude);
@@ -146,25 +147,23 @@ inductive Output where
   | stdout
   deriving Repr, DecidableEq
 
-/-- What arrives at the destination `OUTPUT` designates.  `emit_c_code` runs
-with `compiler_verbose=1`, so `_make_c_or_py_source` first executes
-`print("generating %s" % (target_file,))`; `banner` is that line (it contains
-the `repr` of a `StringIO`, i.e. a memory address, hence a parameter).  With a
-path the line goes to the terminal and the file holds the source only; with `-`
-the source is written to the very stream the line was printed to. -/
-def deliver (linesep : Str) (o : Output) (banner text : Str) : Except Err Bytes :=
+/-- What arrives at the destination `OUTPUT` designates.  The command line
+generates into a `StringIO`; `_make_c_or_py_source` announces
+`"generating <file name>"` on stdout only for real file names, never for a
+file-like target, so nothing but the source is written to stdout. -/
+def deliver (linesep : Str) (o : Output) (text : Str) : Except Err Bytes :=
   match o with
   | .file => writeFile linesep text
-  | .stdout => writeStdout (banner ++ text)
+  | .stdout => writeStdout text
 
 /-- `cffi-gen-src read-sources NAME CDEF CSRC OUTPUT`: the prelude is read
 first, then the cdef (order of `read_sources`) -/
 def cliReadSources (gen : Str → Str → Str → Except Err Str) (linesep : Str) (o : Output)
-    (banner name : Str) (cdefFile csrcFile : Bytes) : Except Err Bytes := do
+    (name : Str) (cdefFile csrcFile : Bytes) : Except Err Bytes := do
   let csrc ← readText csrcFile
   let cdef ← readText cdefFile
   let text ← gen name cdef csrc
-  deliver linesep o banner text
+  deliver linesep o text
 
 /-- `ffi = FFI(); ffi.cdef(cdef); ffi.set_source(name, prelude); ffi.emit_c_code(path)`:
 the contents of `path` -/
@@ -175,10 +174,10 @@ def apiEmit (gen : Str → Str → Str → Except Err Str) (linesep : Str)
 
 /-- `cffi-gen-src exec-python [--ffi-var V] PYFILE OUTPUT` -/
 def cliExecPython (exec : Str → Str → Except Err Str) (linesep : Str) (o : Output)
-    (banner ffiVar : Str) (pyFile : Bytes) : Except Err Bytes := do
+    (ffiVar : Str) (pyFile : Bytes) : Except Err Bytes := do
   let src ← readText pyFile
   let text ← exec src ffiVar
-  deliver linesep o banner text
+  deliver linesep o text
 
 /-- executing the script text and calling `emit_c_code(path)` on what it binds -/
 def apiExec (exec : Str → Str → Except Err Str) (linesep : Str)
